@@ -369,7 +369,7 @@ func genC03(t *rapid.T) c03Case {
 	body := lib.BuildRequest(method, params, o)
 	route := "unary"
 	if c.Transport == "http" {
-		route = []string{"natural", "natural", "natural", "exchange", "exchange", "init", "unary", "upload", "introspect", "session", "page", "wellknown"}[rapid.IntRange(0, 11).Draw(t, "route")]
+		route = []string{"natural", "natural", "natural", "exchange", "exchange", "init", "unary", "upload", "upload", "upload", "introspect", "session", "page", "wellknown"}[rapid.IntRange(0, 13).Draw(t, "route")]
 	}
 	// exchange bodies: an input batch carrying tokens
 	if route == "exchange" {
@@ -412,6 +412,56 @@ func genC03(t *rapid.T) c03Case {
 			keys, vals = append(keys, kv[0]), append(vals, kv[1])
 		}
 		body = lib.EncodeStream(in.Schema(), lib.WithMeta(in, keys, vals))
+	}
+	// the upload-URL control route has its own request shape: a `count` column
+	if route == "upload" && rapid.IntRange(0, 2).Draw(t, "uploadshape") != 0 {
+		ctype := []arrow.DataType{arrow.PrimitiveTypes.Int64, arrow.PrimitiveTypes.Int64, arrow.PrimitiveTypes.Int32, arrow.BinaryTypes.String}[rapid.IntRange(0, 3).Draw(t, "counttype")]
+		fields := []arrow.Field{{Name: "count", Type: ctype, Nullable: true}}
+		if rapid.IntRange(0, 3).Draw(t, "dupcount") == 0 {
+			fields = append(fields, arrow.Field{Name: "count", Type: arrow.PrimitiveTypes.Int64, Nullable: true})
+		}
+		usch := arrow.NewSchema(fields, nil)
+		rows := []int{1, 0, 0, 0, 2}[rapid.IntRange(0, 4).Draw(t, "countrows")]
+		cols := make([]arrow.Array, len(fields))
+		for i, f := range fields {
+			if f.Type.ID() == arrow.INT64 {
+				ib := array.NewInt64Builder(lib.Mem)
+				for r := 0; r < rows; r++ {
+					switch rapid.IntRange(0, 5).Draw(t, "countval") {
+					case 0:
+						ib.AppendNull()
+					case 1:
+						ib.Append(-1)
+					case 2:
+						ib.Append(1 << 40)
+					default:
+						ib.Append(int64(rapid.IntRange(0, 300).Draw(t, "count")))
+					}
+				}
+				cols[i] = ib.NewArray()
+			} else {
+				cols[i] = lib.GenBatch(t, arrow.NewSchema([]arrow.Field{f}, nil), rows).Column(0)
+			}
+		}
+		up := array.NewRecordBatch(usch, cols, int64(rows))
+		um := append([][2]string{}, meta...)
+		if rows == 0 && rapid.IntRange(0, 3).Draw(t, "uploadptr") != 0 {
+			if rapid.Bool().Draw(t, "uploadptrkind") {
+				um = append(um, [2]string{lib.KLocation, "https://127.0.0.1:9/x"})
+			} else {
+				um = append(um, [2]string{lib.KShmOffset, "0"}, [2]string{lib.KShmLength, "64"})
+			}
+			c.Tags = append(c.Tags, "zero-row-pointer")
+		}
+		umethod := "__upload_url__"
+		if rapid.IntRange(0, 5).Draw(t, "uploadmethod") == 0 {
+			umethod = method
+		}
+		uo := o
+		uo.Extra = um
+		body = lib.BuildRequest(umethod, up, uo)
+		c.Cfg.Upload = true
+		c.Tags = append(c.Tags, fmt.Sprintf("upload-shape:rows%d", rows))
 	}
 	// byte-level mutation of the encoded body
 	if rapid.IntRange(0, 3).Draw(t, "bytemut") == 0 {
@@ -662,7 +712,7 @@ func runC03(c c03Case) (out lib.Outcome) {
 		first := strings.SplitN(r.Panic, "\n", 2)[0]
 		cls := "other"
 	pick:
-		for _, prefix := range []string{"nested:", "zero-row", "token:", "shm", "rows:", "wrap:", "serializable", "foreign", "meta:"} {
+		for _, prefix := range []string{"nested:", "upload-shape", "zero-row", "token:", "shm", "rows:", "wrap:", "serializable", "foreign", "meta:"} {
 			for _, tg := range c.Tags {
 				if strings.HasPrefix(tg, prefix) {
 					cls = tg
@@ -689,11 +739,11 @@ func runC03(c c03Case) (out lib.Outcome) {
 
 var propC03 = lib.Prop[c03Case]{
 	ID: "C03",
-	Rule: "structure-aware mutations of valid requests (framework metadata keys added with hostile values incl. location/shm/cancel/tokens, 0/2/5 rows, foreign schemas incl. nested dictionaries, wrapped `request` payloads valid/truncated/empty/foreign/nested up to 200 deep, ArrowSerializable payloads with a foreign inner schema, schema-exact requests whose dictionary index lies outside the dictionary or whose embedded ArrowSerializable payload has no/two rows, retyped, missing, extra or null columns or is not IPC, zero-row pointer batches, byte-level flips/truncations/splices/length edits) on the pipe (followed by a valid call) and on every HTTP route (unary, /init, /exchange with own/foreign/garbled/swapped/missing tokens, upload-url, introspection, session delete, pages) with content codings right/wrong/unknown, wrong verbs and content types, under server configurations external/sticky/hook/version/upload; each case runs in a memory-limited child process. " +
+	Rule: "structure-aware mutations of valid requests (framework metadata keys added with hostile values incl. location/shm/cancel/tokens, 0/2/5 rows, foreign schemas incl. nested dictionaries, wrapped `request` payloads valid/truncated/empty/foreign/nested up to 200 deep, ArrowSerializable payloads with a foreign inner schema, schema-exact requests whose dictionary index lies outside the dictionary or whose embedded ArrowSerializable payload has no/two rows, retyped, missing, extra or null columns or is not IPC, zero-row pointer batches, upload-URL requests in their own shape (a `count` column of the right or a wrong type, duplicated, with 0/1/2 rows, null/negative/huge counts, pointer metadata), byte-level flips/truncations/splices/length edits) on the pipe (followed by a valid call) and on every HTTP route (unary, /init, /exchange with own/foreign/garbled/swapped/missing tokens, upload-url, introspection, session delete, pages) with content codings right/wrong/unknown, wrong verbs and content types, under server configurations external/sticky/hook/version/upload; each case runs in a memory-limited child process. " +
 		"Oracle: the process survives, no panic escapes Serve/ServeHTTP, pipe output is complete IPC streams, HTTP has a status. Non-trivial: the request was not byte-mutated (it reaches dispatch).",
 	Gen:          genC03,
 	Run:          runC03,
-	Essential:    []string{"transport:pipe", "transport:http", "zero-row-pointer", "route:exchange", "wrap:deep", "shm-pointer", "foreign-schema", "nested"},
+	Essential:    []string{"transport:pipe", "transport:http", "zero-row-pointer", "route:exchange", "wrap:deep", "shm-pointer", "foreign-schema", "nested", "upload-shape:rows0", "upload-shape:rows1"},
 	EssentialMin: 500,
 	Assumptions:  []string{"bodies whose framing declares >16 MiB more than present are excluded by construction (finding C03/oom-declared-length) and counted"},
 }
